@@ -630,7 +630,16 @@ theorem applyFunction_step {fuel : Nat} (ih : Spec fuel) : ∀ fn args st, Inv s
   split
   · next f =>
     have hf : f.env < st.frames.size := by simpa [okObj] using hfn
-    refine Post.bind (post_cacheGet hI f.key args) ?_
+    refine Post.bind_read (runM_curEnv st) ?_
+    obtain ⟨cf0, hcf0⟩ := frame_exists hI.cur
+    refine Post.bind_read (runM_getFrame hcf0) ?_
+    extract_lets skip
+    have hcg : Post (if skip = true then pure none else cacheGet f.key args) st (fun r s =>
+        s = st ∧ ∀ (v : Obj) (o : Grol.Wire.Bytes), r = some (v, o) → okObj st.frames.size v = true) := by
+      split
+      · exact Post.pure hI ⟨rfl, fun _ _ h => by cases h⟩
+      · exact post_cacheGet hI f.key args
+    refine Post.bind hcg ?_
     rintro r s hIs _ ⟨rfl, hr⟩
     split
     · next v output =>
